@@ -10,6 +10,7 @@ import (
 	_ "pdverif/internal/bootstraph"
 	_ "pdverif/internal/clusterh"
 	_ "pdverif/internal/configh"
+	_ "pdverif/internal/electionh"
 	_ "pdverif/internal/idalloc"
 	_ "pdverif/internal/operatorh"
 	_ "pdverif/internal/placementh"
